@@ -277,19 +277,49 @@ func TestC19(t *testing.T) {
 			}
 			var others []string
 			var othersDesc []map[string]string
-			for _, od := range otherDenoms {
-				if r.Intn(2) == 0 {
+			// one case in five: every conversion is a repeating decimal over a common divisor and
+			// the exact total is a whole number (the truncated 18-decimal sum then sits just below it)
+			wholeSum := r.Intn(5) == 0
+			q := []int64{3, 7, 9, 11, 13, 17}[r.Intn(6)]
+			resSum := int64(0)
+			for oi, od := range otherDenoms {
+				if !wholeSum && r.Intn(2) == 0 {
 					continue
 				}
 				a, np, na := small(), small(), small()
-				switch r.Intn(4) {
-				case 0: // exact conversion
+				switch {
+				case wholeSum:
+					res := 1 + r.Int63n(q-1)
+					if oi == len(otherDenoms)-1 {
+						res = (q - resSum%q) % q
+						if res == 0 {
+							res = q // a whole term
+						}
+					}
+					resSum += res
+					a.Mul(big.NewInt(q), new(big.Int).Rsh(a, 4))
+					a.Add(a, big.NewInt(res))
+					np.SetInt64(1)
+					na.SetInt64(q)
+				case r.Intn(4) == 0: // exact conversion
 					a.Mul(na, big.NewInt(r.Int63n(1000)+1))
-				case 1: // repeating decimal
+				case r.Intn(3) == 0: // repeating decimal
 					na.SetInt64([]int64{3, 7, 9, 11, 13, 17}[r.Intn(6)])
 				}
 				inputs = inputs.Add(sdk.NewCoin(od, sdkmath.NewIntFromBigInt(a)))
-				navs = append(navs, exchange.NetAssetPrice{Assets: sdk.NewCoin(od, sdkmath.NewIntFromBigInt(na)), Price: sdk.NewCoin(interm, sdkmath.NewIntFromBigInt(np))})
+				right := exchange.NetAssetPrice{Assets: sdk.NewCoin(od, sdkmath.NewIntFromBigInt(na)), Price: sdk.NewCoin(interm, sdkmath.NewIntFromBigInt(np))}
+				if !sameDenom && r.Intn(3) == 0 {
+					// a second NAV of the same assets denom priced in the FEE denom, before or after the right one
+					decoy := exchange.NetAssetPrice{Assets: sdk.NewCoin(od, sdkmath.NewIntFromBigInt(small())), Price: sdk.NewCoin(feeDenom, sdkmath.NewIntFromBigInt(small()))}
+					if r.Intn(2) == 0 {
+						navs = append(navs, decoy, right)
+					} else {
+						navs = append(navs, right, decoy)
+					}
+					w.Count("commitment_fee_two_navs_for_one_assets_denom")
+				} else {
+					navs = append(navs, right)
+				}
 				others = append(others, "("+zBig(a)+", "+zBig(np)+", "+zBig(na)+")")
 				othersDesc = append(othersDesc, map[string]string{"denom": od, "amount": a.String(), "nav_price": np.String(), "nav_assets": na.String()})
 			}
@@ -350,6 +380,9 @@ func TestC19(t *testing.T) {
 			w.Add(term, desc{"fn": "CalculateCommitmentSettlementFee", "fee_denom_amount": feeAmt.String(), "intermediary_amount": convAmt.String(),
 				"others": othersDesc, "to_fee_nav_price": tfp.String(), "to_fee_nav_assets": tfa.String(), "bips": bips, "same_denom": sameDenom, "ok": err == nil})
 			w.Count("commitment_fee")
+			if wholeSum {
+				w.Count("commitment_fee_repeating_decimals_with_whole_total")
+			}
 			if err == nil && len(others) > 0 {
 				w.Nontrivial("c/" + term)
 			}
